@@ -964,4 +964,364 @@ theorem walk_ipv6_cfg (c : Cfg) (pl : Bytes) (ip : Ipv6Header) (e : Ipv6Exts) (h
   · simp only [hf, if_false]
     exact walk_tp_cfg c pl wt hnotarp hfit2 (htp (by rw [hfrag]; simpa using hf)) g k _ _ _ ne hhT
 
+/-! ### the whole walk -/
+
+/-- size of the net layer (header and extension headers) -/
+def netLen (c : Cfg) : Nat :=
+  match c.net with
+  | .ipv4 h e => 20 + h.options.length + e.headerLen
+  | .ipv6 _ e => 40 + e.headerLen
+  | .arp a => a.headerLen
+
+def vlanLen (c : Cfg) : Nat :=
+  match c.vlan with
+  | some (.single _) => 4
+  | some (.double _ _) => 8
+  | none => 0
+
+def linkLen (c : Cfg) : Nat :=
+  match c.link with
+  | some (.eth2 _) => 14
+  | some (.sll _) => 16
+  | none => 0
+
+/-- the side conditions under which strict decoding returns the configured layers (all decidable;
+    each excluded case is a configuration whose output the wire formats read differently):
+    ARP needs a link layer in front (there is no ether type otherwise); a payload without transport
+    header must be announced by a protocol number that neither the IP layer (extension headers) nor
+    the transport decoders (UDP, TCP, ICMP) interpret; ICMPv4 timestamp messages are 20 bytes. -/
+def NetOk (c : Cfg) (n : Nat) : Prop :=
+  match c.net with
+  | .arp _ => c.link ≠ none
+  | _ => RawOk c ∧ (cfgFrag c = false → TpOk c n)
+instance (c : Cfg) (n : Nat) : Decidable (NetOk c n) := by
+  unfold NetOk; split <;> infer_instance
+
+theorem walk_net_cfg (c : Cfg) (pl : Bytes) (wf : c.WF) (enc : Encodable c pl.length) (ok : NetOk c pl.length)
+    (g : Mem) (k : Nat) (pk : Packet) (o : Nat) (lim : Dec.LenSource) (ne : Nat)
+    (hh : Holds g o (outNet c pl.length ++ tpBytes (outTpHeader c pl))) :
+    walkN false g (k + 3) pk (.ether c.net.etherType)
+        { off := o, stop := o + (netLen c + tpHeaderLen c.tp + pl.length), lim := lim, nExt := ne }
+      = (setTpO (setNet pk (expNetAt c o pl.length)) (expTpAt c (o + netLen c) pl.length), none) := by
+  cases hnet : c.net with
+  | arp a =>
+    have wa : a.WF := by have := wf.2.2.1; rw [hnet] at this; exact this
+    have hout : outNet c pl.length = a.toBytes := by simp [outNet, hnet]
+    rw [hout] at hh
+    have st := step_ether_arp g pk o (o + (netLen c + tpHeaderLen c.tp + pl.length)) lim ne a wa hh.left
+      (by simp [netLen, hnet]; omega)
+    simp only [Net.etherType]
+    rw [walkN_next false g (k + 2) pk _ _ _ _ _ (by simp) st, walkN_done]
+    simp [expNetAt, expTpAt, hnet, setTpO]
+  | ipv4 ip e =>
+    simp only [NetOk, hnet] at ok
+    simp only [Net.etherType]
+    rw [walkN_next false g (k + 2) pk _ _ _ _ _ (by simp) (step_ether_ipv4 g pk _)]
+    have := walk_ipv4_cfg c pl ip e hnet wf enc ok.1 ok.2 g k pk o lim ne hh
+    have es : netLen c + tpHeaderLen c.tp + pl.length = 20 + ip.options.length + innerLen c pl.length := by
+      simp [netLen, hnet, innerLen, Net.extsLen]; omega
+    have es2 : netLen c = 20 + ip.options.length + e.headerLen := by simp [netLen, hnet]
+    rw [es, es2]
+    exact this
+  | ipv6 ip e =>
+    simp only [NetOk, hnet] at ok
+    simp only [Net.etherType]
+    rw [walkN_next false g (k + 2) pk _ _ _ _ _ (by simp) (step_ether_ipv6 g pk _)]
+    have := walk_ipv6_cfg c pl ip e hnet wf enc ok.1 ok.2 g k pk o lim ne hh
+    have es : netLen c + tpHeaderLen c.tp + pl.length = 40 + innerLen c pl.length := by
+      simp [netLen, hnet, innerLen, Net.extsLen]; omega
+    have es2 : netLen c = 40 + e.headerLen := by simp [netLen, hnet]
+    rw [es, es2]
+    exact this
+
+
+/-- VLAN tags found at `o` when `r` bytes follow them -/
+def expExtsAt (c : Cfg) (o r : Nat) : List ExtR :=
+  match c.vlan with
+  | none => []
+  | some (.single _) => [.vlan ⟨o, 4 + r⟩]
+  | some (.double _ _) => [.vlan ⟨o, 8 + r⟩, .vlan ⟨o + 4, 4 + r⟩]
+
+def addExts (p : Packet) (xs : List ExtR) : Packet := { p with exts := p.exts ++ xs }
+
+theorem netEt_lt (c : Cfg) : c.net.etherType < 65536 := by cases c.net <;> simp [Net.etherType]
+
+theorem walk_vlan_cfg (c : Cfg) (pl : Bytes) (wf : c.WF) (enc : Encodable c pl.length) (ok : NetOk c pl.length)
+    (g : Mem) (k : Nat) (pk : Packet) (o : Nat) (lim : Dec.LenSource)
+    (hh : Holds g o (outVlan c ++ (outNet c pl.length ++ tpBytes (outTpHeader c pl)))) :
+    walkN false g (k + 5) pk (.ether (firstEt c.vlan c.net.etherType))
+        { off := o, stop := o + (vlanLen c + (netLen c + tpHeaderLen c.tp + pl.length)), lim := lim, nExt := 0 }
+      = (setTpO (setNet (addExts pk (expExtsAt c o (netLen c + tpHeaderLen c.tp + pl.length)))
+                  (expNetAt c (o + vlanLen c) pl.length))
+          (expTpAt c (o + vlanLen c + netLen c) pl.length), none) := by
+  have het := netEt_lt c
+  rcases hv : c.vlan with _ | ⟨v | ⟨vo, vi⟩⟩
+  · have hout : outVlan c = [] := by simp [outVlan, vlanBytes, hv]
+    rw [hout] at hh
+    have := walk_net_cfg c pl wf enc ok g (k + 2) pk o lim 0 hh.right
+    simpa [firstEt, vlanLen, hv, expExtsAt, addExts] using this
+  · have hout : outVlan c = (withEt v c.net.etherType).toBytes := by simp [outVlan, vlanBytes, hv]
+    rw [hout] at hh
+    have hl := vlan_len (withEt v c.net.etherType)
+    have g2 : g16 g (o + 2) = c.net.etherType := by
+      rw [hh.left.g16 2 (by omega), vlan_et _ (by simpa [withEt] using het)]; rfl
+    have st := step_vlan g pk o (o + (4 + (netLen c + tpHeaderLen c.tp + pl.length))) lim 0 0x8100
+      (by decide) (by decide) (by omega)
+    simp only [firstEt, vlanLen, hv]
+    rw [walkN_next false g (k + 4) pk _ _ _ _ _ (by simp) st, g2]
+    have hr := hh.right
+    rw [hl] at hr
+    have es : o + (4 + (netLen c + tpHeaderLen c.tp + pl.length))
+        = o + 4 + (netLen c + tpHeaderLen c.tp + pl.length) := by omega
+    have es2 : o + (4 + (netLen c + tpHeaderLen c.tp + pl.length)) - o
+        = 4 + (netLen c + tpHeaderLen c.tp + pl.length) := by omega
+    rw [es2, es]
+    have := walk_net_cfg c pl wf enc ok g (k + 1) (addExt pk (.vlan ⟨o, 4 + (netLen c + tpHeaderLen c.tp + pl.length)⟩))
+      (o + 4) lim (0 + 1) hr
+    simpa [expExtsAt, hv, addExts, addExt] using this
+  · have hout : outVlan c = (withEt vo 0x8100).toBytes ++ (withEt vi c.net.etherType).toBytes := by
+      simp [outVlan, vlanBytes, hv]
+    rw [hout] at hh
+    have hl1 := vlan_len (withEt vo 0x8100)
+    have hl2 := vlan_len (withEt vi c.net.etherType)
+    have h1 := hh.left.left
+    have h2 := hh.left.right
+    rw [hl1] at h2
+    have g2 : g16 g (o + 2) = 0x8100 := by
+      rw [h1.g16 2 (by omega), vlan_et _ (by simp [withEt])]; rfl
+    have g6 : g16 g (o + 4 + 2) = c.net.etherType := by
+      rw [h2.g16 2 (by omega), vlan_et _ (by simpa [withEt] using het)]; rfl
+    have st1 := step_vlan g pk o (o + (8 + (netLen c + tpHeaderLen c.tp + pl.length))) lim 0 0x88a8
+      (by decide) (by decide) (by omega)
+    simp only [firstEt, vlanLen, hv]
+    rw [walkN_next false g (k + 4) pk _ _ _ _ _ (by simp) st1, g2]
+    have st2 := step_vlan g (addExt pk (.vlan ⟨o, o + (8 + (netLen c + tpHeaderLen c.tp + pl.length)) - o⟩)) (o + 4)
+      (o + (8 + (netLen c + tpHeaderLen c.tp + pl.length))) lim (0 + 1) 0x8100
+      (by decide) (by decide) (by omega)
+    rw [walkN_next false g (k + 3) _ _ _ _ _ _ (by simp) st2, g6]
+    have hr := hh.right
+    simp only [List.length_append, hl1, hl2] at hr
+    have es : o + (8 + (netLen c + tpHeaderLen c.tp + pl.length))
+        = o + 4 + 4 + (netLen c + tpHeaderLen c.tp + pl.length) := by omega
+    have es2 : o + (8 + (netLen c + tpHeaderLen c.tp + pl.length)) - o
+        = 8 + (netLen c + tpHeaderLen c.tp + pl.length) := by omega
+    have es3 : o + (8 + (netLen c + tpHeaderLen c.tp + pl.length)) - (o + 4)
+        = 4 + (netLen c + tpHeaderLen c.tp + pl.length) := by omega
+    have es4 : o + (4 + 4) = o + 4 + 4 := by omega
+    rw [es2, es3, es]
+    rw [es4] at hr
+    have := walk_net_cfg c pl wf enc ok g k
+      (addExt (addExt pk (.vlan ⟨o, 8 + (netLen c + tpHeaderLen c.tp + pl.length)⟩))
+        (.vlan ⟨o + 4, 4 + (netLen c + tpHeaderLen c.tp + pl.length)⟩))
+      (o + 4 + 4) lim (0 + 1 + 1) hr
+    have es5 : o + 8 = o + 4 + 4 := by omega
+    simpa [expExtsAt, hv, addExts, addExt, es5] using this
+
+
+
+/-- `NetOk`, and VLAN tags only behind an Ethernet II header (the typed builder steps offer
+    `vlan` only there; the model's `Cfg` is wider: behind an SLL header the builder would announce
+    the net layer and emit the tags nevertheless) -/
+def ParseOk (c : Cfg) (n : Nat) : Prop :=
+  (match c.link with
+   | some (.eth2 _) => True
+   | _ => c.vlan = none) ∧ NetOk c n
+instance (c : Cfg) (n : Nat) : Decidable (ParseOk c n) := by
+  unfold ParseOk
+  rcases c.link with _ | ⟨h | s⟩ <;> infer_instance
+
+/-- the entry point that fits the configuration: `from_ethernet`, `from_linux_sll`, `from_ip` -/
+def startOf (c : Cfg) : Start :=
+  match c.link with
+  | some (.eth2 _) => .eth
+  | some (.sll _) => .sll
+  | none => .ip
+
+/-- the layers strict decoding returns for the output of configuration `c` with `n` payload bytes -/
+def expPacket (c : Cfg) (n : Nat) : Packet :=
+  { link := (match c.link with
+      | some (.eth2 _) => some (.eth2 ⟨0, size c n⟩)
+      | some (.sll _) => some (.sll ⟨0, size c n⟩)
+      | none => none),
+    exts := expExtsAt c (linkLen c) (netLen c + tpHeaderLen c.tp + n),
+    net := some (expNetAt c (linkLen c + vlanLen c) n),
+    tp := expTpAt c (linkLen c + vlanLen c + netLen c) n,
+    stop := none }
+
+theorem size_eq (c : Cfg) (n : Nat) :
+    size c n = linkLen c + (vlanLen c + (netLen c + tpHeaderLen c.tp + n)) := by
+  unfold size linkLen vlanLen netLen
+  rcases c.link with _ | ⟨h | h⟩ <;> rcases c.vlan with _ | ⟨v | ⟨a, b⟩⟩ <;> cases c.net <;>
+    rcases c.tp with _ | ⟨h | h | h | h⟩ <;>
+    simp [Eth2.headerLen, Sll.headerLen, Ipv4Header.headerLen, tpHeaderLen, Tp.headerLen, Udp.headerLen] <;> omega
+
+theorem setTpO_empty (l : Option LinkR) (xs : List ExtR) (n : NetR) (t : Option TpR) :
+    setTpO (setNet (addExts { link := l, exts := [], net := none, tp := none, stop := none } xs) n) t
+      = { link := l, exts := xs, net := some n, tp := t, stop := none } := by
+  cases t <;> simp [setTpO, setNet, addExts, setTp]
+
+
+theorem ipv4_byte0 (h : Ipv4Header) (ho : h.options.length ≤ 40) :
+    bAt h.toBytes 0 = 64 + (h.options.length / 4 + 5) := by
+  have e0 : 64 ||| h.ihl = 64 + (h.options.length / 4 + 5) := by
+    rw [CodecNet.Ipv4.ihl_eq h ho]; exact CodecNet.or_eq_add 4 (by decide) (by omega)
+  unfold Ipv4Header.toBytes Ipv4Header.headerLen
+  rw [bAt_take _ _ _ (by omega)]
+  simp [e0]; omega
+
+theorem ipv6_byte0 (h : Ipv6Header) (htc : h.trafficClass < 256) : bAt h.toBytes 0 / 16 = 6 := by
+  have e0 : 96 ||| (h.trafficClass >>> 4) = 96 + h.trafficClass / 16 := by
+    rw [Nat.shiftRight_eq_div_pow]; exact CodecNet.or_eq_add 4 (by decide) (by omega)
+  unfold Ipv6Header.toBytes
+  simp [e0]; omega
+
+theorem sll_not_nonstd (c : Cfg) : sllNonStandard c.net.etherType = false := by
+  cases c.net <;> simp [Net.etherType, sllNonStandard]
+
+theorem decode_buildOk (c : Cfg) (pl : Bytes) (wf : c.WF) (enc : Encodable c pl.length)
+    (ok : ParseOk c pl.length) :
+    Spec.decode (startOf c) (memOf (buildOk c pl)) (buildOk c pl).length = .ok (expPacket c pl.length) := by
+  have hlen := buildOk_length c pl wf
+  have hsz := size_eq c pl.length
+  have hll := outLink_len c wf.1
+  obtain ⟨g, hg⟩ : ∃ g, g = memOf (buildOk c pl) := ⟨_, rfl⟩
+  have hh0 : Holds g 0 (buildOk c pl) := hg ▸ holds_memOf (buildOk c pl)
+  rw [← hg]
+  clear hg
+  have hb : buildOk c pl = outLink c ++ ((outVlan c ++ (outNet c pl.length ++ tpBytes (outTpHeader c pl))) ++ pl) := by
+    simp [buildOk, List.append_assoc]
+  rw [hb] at hh0
+  rw [hlen]
+  have hL := hh0.left
+  have hR := hh0.right.left
+  rw [Nat.zero_add] at hR
+  unfold Spec.decode
+  have hnum : maxSteps = 12 := rfl
+  rw [hnum]
+  rcases hl : c.link with _ | ⟨h | s⟩
+  · -- no link layer: `from_ip`
+    have hv : c.vlan = none := by have := ok.1; rw [hl] at this; exact this
+    have hll0 : (outLink c).length = 0 := by rw [hll, hl]
+    have ho : outVlan c = [] := by simp [outVlan, vlanBytes, hv]
+    rw [hll0, ho] at hR
+    have hR' := hR.right
+    simp only [List.length_nil, Nat.add_zero] at hR'
+    have e0 : linkLen c = 0 := by simp [linkLen, hl]
+    have e1 : vlanLen c = 0 := by simp [vlanLen, hv]
+    have hx : expExtsAt c 0 (netLen c + tpHeaderLen c.tp + pl.length) = [] := by simp [expExtsAt, hv]
+    simp only [startOf, hl, startTag, startPacket, if_true, ite_self, expPacket, e0, e1, hx, Nat.zero_add, hsz]
+    have nok := ok.2
+    cases hnet : c.net with
+    | arp a => simp [NetOk, hnet, hl] at nok
+    | ipv4 ip e =>
+      simp only [NetOk, hnet] at nok
+      have wi : ip.WF := by have := wf.2.2.1; rw [hnet] at this; exact this.1
+      obtain ⟨_, _, _, _, hfo, _, _, _, hs, hd, hol, ho4⟩ := wi
+      have hout : outNet c pl.length
+          = (ipv4Out ip e (endNum c) (innerLen c pl.length)).toBytes ++ ipv4ExtsOut e (endNum c) := by
+        simp [outNet, hnet]
+      have hhd := hR'.left
+      rw [hout] at hhd
+      have hl4 := ipv4_len (ipv4Out ip e (endNum c) (innerLen c pl.length)) hs hd hol
+      have f0 := ipv4_byte0 (ipv4Out ip e (endNum c) (innerLen c pl.length)) hol
+      have eo : (ipv4Out ip e (endNum c) (innerLen c pl.length)).options = ip.options := rfl
+      rw [eo] at f0 hl4
+      have g0 : g 0 / 16 = 4 := by
+        rw [hhd.left.at0 (by omega), f0]; omega
+      have es : netLen c + tpHeaderLen c.tp + pl.length = 20 + ip.options.length + innerLen c pl.length := by
+        simp [netLen, hnet, innerLen, Net.extsLen]; omega
+      have es2 : netLen c = 20 + ip.options.length + e.headerLen := by simp [netLen, hnet]
+      have st := step_ipAny4 g Packet.empty 0 (netLen c + tpHeaderLen c.tp + pl.length) .slice 0 (by omega) g0
+      rw [walkN_next false g 11 _ _ _ _ _ _ (by simp) st]
+      have := walk_ipv4_cfg c pl ip e hnet wf enc nok.1 nok.2 g 9 Packet.empty 0 .slice 0 hR'
+      simp only [Nat.zero_add] at this
+      rw [es, this, es2]
+      simp only [verdict, Packet.empty]
+      rw [← setTpO_empty none [] _ _]
+      simp [addExts]
+    | ipv6 ip e =>
+      simp only [NetOk, hnet] at nok
+      have wi : ip.WF := by have := wf.2.2.1; rw [hnet] at this; exact this.1
+      obtain ⟨htc, _, _, _, _, hs, hd⟩ := wi
+      have hout : outNet c pl.length
+          = (ipv6Out ip e (endNum c) (innerLen c pl.length)).toBytes ++ ipv6ExtsOut e (endNum c) := by
+        simp [outNet, hnet]
+      have hhd := hR'.left
+      rw [hout] at hhd
+      have hl6 := ipv6_len (ipv6Out ip e (endNum c) (innerLen c pl.length)) hs hd
+      have f0 := ipv6_byte0 (ipv6Out ip e (endNum c) (innerLen c pl.length)) htc
+      have g0 : g 0 / 16 = 6 := by
+        rw [hhd.left.at0 (by omega), f0]
+      have es : netLen c + tpHeaderLen c.tp + pl.length = 40 + innerLen c pl.length := by
+        simp [netLen, hnet, innerLen, Net.extsLen]; omega
+      have es2 : netLen c = 40 + e.headerLen := by simp [netLen, hnet]
+      have st := step_ipAny6 g Packet.empty 0 (netLen c + tpHeaderLen c.tp + pl.length) .slice 0 (by omega) g0
+      rw [walkN_next false g 11 _ _ _ _ _ _ (by simp) st]
+      have := walk_ipv6_cfg c pl ip e hnet wf enc nok.1 nok.2 g 9 Packet.empty 0 .slice 0 hR'
+      simp only [Nat.zero_add] at this
+      rw [es, this, es2]
+      simp only [verdict, Packet.empty]
+      rw [← setTpO_empty none [] _ _]
+      simp [addExts]
+  · -- Ethernet II: `from_ethernet`
+    have wl : h.WF := by have := wf.1; rw [hl] at this; exact this
+    have hll14 : (outLink c).length = 14 := by rw [hll, hl]; rfl
+    rw [hll14] at hR
+    have ho : outLink c = Eth2.toBytes { dst := h.dst, src := h.src, et := firstEt c.vlan c.net.etherType } := by
+      simp [outLink, outLinkOf, hl]
+    have het : firstEt c.vlan c.net.etherType < 65536 := by
+      have := netEt_lt c
+      unfold firstEt
+      rcases c.vlan with _ | ⟨v | ⟨o, i⟩⟩ <;> simp <;> exact this
+    have g12 : g16 g (0 + 12) = firstEt c.vlan c.net.etherType := by
+      rw [hL.g16 12 (by omega), ho,
+        eth2_et { dst := h.dst, src := h.src, et := firstEt c.vlan c.net.etherType } ⟨wl.1, wl.2.1, het⟩]
+    have e0 : linkLen c = 14 := by simp [linkLen, hl]
+    simp only [startOf, hl, startTag, startPacket, expPacket, e0, hsz]
+    have st := step_eth g Packet.empty 0 (14 + (vlanLen c + (netLen c + tpHeaderLen c.tp + pl.length))) .slice 0
+      (by omega)
+    rw [walkN_next false g 11 _ _ _ _ _ _ (by simp) st, g12]
+    have := walk_vlan_cfg c pl wf enc ok.2 g 6 (setLink Packet.empty (.eth2 ⟨0, 14 + (vlanLen c + (netLen c + tpHeaderLen c.tp + pl.length)) - 0⟩)) 14 .slice hR
+    simp only [Nat.zero_add, Nat.sub_zero] at this ⊢
+    rw [this]
+    simp only [verdict, Packet.empty, setLink]
+    rw [setTpO_empty]
+  · -- Linux cooked capture: `from_linux_sll`
+    have wl : s.WF ∧ s.hrd = 1 := by have := wf.1; rw [hl] at this; exact this
+    have hll16 : (outLink c).length = 16 := by rw [hll, hl]; rfl
+    rw [hll16] at hR
+    have hpc : (sllChangeValue s.proto c.net.etherType).val = c.net.etherType := by
+      have hns : isNonstdEtherType c.net.etherType = false := by cases c.net <;> simp [Net.etherType, isNonstdEtherType]
+      cases s.proto <;> simp [sllChangeValue, hns, SllProto.val]
+    have ws : (Sll.mk s.ptype s.hrd s.alen s.addr (sllChangeValue s.proto c.net.etherType)).WF := by
+      obtain ⟨⟨a, b, c1, d, e1, f⟩, hh1⟩ := wl
+      refine ⟨a, b, c1, d, ?_, ?_⟩
+      · rw [hpc]; exact netEt_lt c
+      · have hns : isNonstdEtherType c.net.etherType = false := by cases c.net <;> simp [Net.etherType, isNonstdEtherType]
+        revert f
+        cases s.proto <;> simp [sllChangeValue, hns, Sll.protoConsistent, hh1]
+    have ho : outLink c = Sll.toBytes (Sll.mk s.ptype s.hrd s.alen s.addr (sllChangeValue s.proto c.net.etherType)) := by
+      simp [outLink, outLinkOf, hl]
+    obtain ⟨f0, f2, f14⟩ := sll_fields _ ws
+    rw [← ho] at f0 f2 f14
+    have g0 : g16 g 0 ≤ 7 := by
+      have := hL.g16 0 (by omega)
+      rw [Nat.zero_add] at this
+      rw [this, f0]; exact wl.1.1
+    have g2 : g16 g (0 + 2) = 1 := by rw [hL.g16 2 (by omega), f2]; exact wl.2
+    have g14 : g16 g (0 + 14) = c.net.etherType := by rw [hL.g16 14 (by omega), f14, hpc]
+    have e0 : linkLen c = 16 := by simp [linkLen, hl]
+    simp only [startOf, hl, startTag, startPacket, expPacket, e0, hsz]
+    have st := step_sll g Packet.empty 0 (16 + (vlanLen c + (netLen c + tpHeaderLen c.tp + pl.length))) .slice 0
+      c.net.etherType (by omega) g0 g2 g14 (sll_not_nonstd c)
+    rw [walkN_next false g 11 _ _ _ _ _ _ (by simp) st]
+    have hv : c.vlan = none := by have := ok.1; rw [hl] at this; exact this
+    have hfe : firstEt c.vlan c.net.etherType = c.net.etherType := by simp [firstEt, hv]
+    have := walk_vlan_cfg c pl wf enc ok.2 g 6 (setLink Packet.empty (.sll ⟨0, 16 + (vlanLen c + (netLen c + tpHeaderLen c.tp + pl.length)) - 0⟩)) 16 .slice hR
+    rw [hfe] at this
+    simp only [Nat.zero_add, Nat.sub_zero] at this ⊢
+    rw [this]
+    simp only [verdict, Packet.empty, setLink]
+    rw [setTpO_empty]
+
 end EpModel.Lemmas.BuilderParse
